@@ -256,6 +256,7 @@ type entry struct {
 func main() {
 	repo := flag.String("repo", "/repo", "repository root")
 	out := flag.String("out", "", "output Lean file")
+	skelOut := flag.String("skel-out", "", "output Lean file of the control skeletons (default: appended to -out)")
 	flag.Parse()
 
 	fset := token.NewFileSet()
@@ -740,6 +741,7 @@ func main() {
 		qd = append(qd, fmt.Sprintf("  (%s, %s, [%s])", leanStr(e.fn), leanStr(e.path), strings.Join(cs, ", ")))
 	}
 	fmt.Fprintf(&b, "/-- the readers' dispatch tables: (function, branch on the node kind, model edits written directly in it, in source order) -/\ndef readerEdits : List (String × String × List String) := [\n%s]\n\n", strings.Join(qd, ",\n"))
+	var sk strings.Builder
 	for _, grp := range skeletonGroups {
 		qs := []string{}
 		for _, f := range skeletonOf(fset, *repo, grp.files, grp.only, grp.except) {
@@ -749,7 +751,15 @@ func main() {
 			}
 			qs = append(qs, fmt.Sprintf("  (%s, [%s])", leanStr(f.name), strings.Join(ts, ", ")))
 		}
-		fmt.Fprintf(&b, "/-- control skeleton of the functions of %s (function, control statements with conditions and selector calls, in source order) -/\ndef %s : List (String × List String) := [\n%s]\n\n", grp.doc, grp.name, strings.Join(qs, ",\n"))
+		fmt.Fprintf(&sk, "/-- control skeleton of the functions of %s (function, control statements with conditions and selector calls, in source order) -/\ndef %s : List (String × List String) := [\n%s]\n\n", grp.doc, grp.name, strings.Join(qs, ",\n"))
+	}
+	if *skelOut == "" {
+		b.WriteString(sk.String())
+	} else {
+		hdr := "/-\n  Generated/Skeletons.lean — written by harness/cmd/factgen (skeleton.go) from /repo on every run; do not edit.\n-/\nnamespace Sqlize.Facts\n\n"
+		if err := os.WriteFile(*skelOut, []byte(hdr+sk.String()+"end Sqlize.Facts\n"), 0644); err != nil {
+			fail("%v", err)
+		}
 	}
 	b.WriteString("end Sqlize.Facts\n")
 
